@@ -377,9 +377,16 @@ pub fn run(seed: u64, w: &Work) -> Report {
         h2_faults(&mut rep, srv.addr, if w.random_faults > 5000 { 120 } else { 24 }, seed, mode_tag, 4096);
         // the server future must still be pending
         if let (Some(rt), Some(server)) = (srv.rt.as_ref(), srv.server.as_ref()) {
+            // (no timer of the server's runtime involved: it may be wedged)
             let wait = server.wait_for_shutdown();
-            let finished = rt.block_on(async { tokio::time::timeout(Duration::from_millis(50), wait).await.is_ok() });
-            if finished {
+            let finished = Arc::new(AtomicBool::new(false));
+            let f2 = finished.clone();
+            rt.spawn(async move {
+                let _ = wait.await;
+                f2.store(true, Ordering::SeqCst);
+            });
+            std::thread::sleep(Duration::from_millis(50));
+            if finished.load(Ordering::SeqCst) {
                 rep.violate("C18:server-future-terminated", json!({"mode": mode_tag}));
             }
         }
@@ -390,8 +397,14 @@ pub fn run(seed: u64, w: &Work) -> Report {
         let panics = log.count_kind("H_PANIC");
         rep.count("deliberate_handler_panics", panics as u64);
         rep.count("handler_entries", log.count_kind("H_ENTER") as u64);
-        if let Some(Err(e)) = srv.close() {
-            rep.violate("C18:server-task-died", json!({"mode": mode_tag, "close_result": e}));
+        match srv.close() {
+            Some(Err(e)) if e.contains(crate::srv::CLOSE_HUNG) => {
+                // every client of this run has disconnected and no handler waits for anything
+                rep.violate("C18:server-wedged:close-did-not-return", json!({"mode": mode_tag, "close_result": e,
+                    "what": "after the fault workload, with every connection closed, graceful shutdown did not finish: some request task never ended"}));
+            }
+            Some(Err(e)) => rep.violate("C18:server-task-died", json!({"mode": mode_tag, "close_result": e})),
+            _ => {}
         }
     }
     rep
